@@ -74,22 +74,25 @@ Proof.
     destruct (ib_h s); try discriminate.
     destruct (Nat.eqb (ib_buf s) 0) eqn:E; injection H as <-; cbn [ibb_set ib_outs ib_buf].
     + apply Nat.eqb_eq in E. lia.
-    + rewrite delivered_app. cbn. lia.
-  - destruct (ib_rd s); try discriminate. injection H as <-. cbn. lia.
+    + rewrite delivered_app. cbn [delivered_bytes].
+      apply Nat.eqb_neq in E. destruct (ib_buf s) as [|m]; [congruence|].
+      pose proof (Nat.le_min_r cap m). lia.
+  - destruct (ib_rd s); try discriminate. injection H as <-. cbn [ibb_set ib_outs ib_buf]. lia.
   - destruct (ib_rd s); try discriminate. destruct cap as [|cap]; try discriminate.
     destruct (ib_h s); try discriminate.
     destruct (Nat.eqb (ib_buf s) 0) eqn:E; injection H as <-; cbn [ibb_set ib_outs ib_buf];
-      rewrite delivered_app; cbn.
+      rewrite delivered_app; cbn [delivered_bytes].
     + apply Nat.eqb_eq in E. lia.
-    + lia.
+    + apply Nat.eqb_neq in E. destruct (ib_buf s) as [|m]; [congruence|].
+      pose proof (Nat.le_min_r cap m). lia.
   - destruct (ib_h s); try discriminate. destruct (ib_remote_closed s); try discriminate.
-    injection H as <-. cbn. lia.
+    injection H as <-. cbn [ibb_set ib_outs ib_buf]. lia.
   - destruct (ib_h s); try discriminate.
-    destruct (ib_closed s); [injection H as <-; cbn; lia|].
-    destruct (ib_rd s); injection H as <-; cbn; lia.
+    destruct (ib_closed s); [injection H as <-; cbn [ibb_set ib_outs ib_buf]; lia|].
+    destruct (ib_rd s); injection H as <-; cbn [ibb_set ib_outs ib_buf]; lia.
   - destruct (ib_h s); try discriminate. destruct (ib_closed s); try discriminate.
-    injection H as <-. cbn. lia.
-  - destruct (ib_closed s); try discriminate. injection H as <-. cbn. lia.
+    injection H as <-. cbn [ib_outs ib_buf]. lia.
+  - destruct (ib_closed s); try discriminate. injection H as <-. cbn [ib_outs ib_buf]. lia.
 Qed.
 
 Lemma ibb_conservation_run tr : forall s s',
@@ -120,15 +123,13 @@ Proof.
   - rewrite C in H. discriminate.
 Qed.
 
-(* ---- the reader's wake-up ---- *)
+(* ---- structural invariant, on every schedule ---- *)
 
-(* Invariant that holds on every schedule: a woken reader was woken by a
-   notification or by a close; a reader that saw an empty buffer still has the
-   handler outside its critical section or the buffer empty. *)
 Record IbbInv (s : ibbstate) : Prop := {
   ii_remote : ib_remote_closed s = true -> ib_closed s = true;
   ii_waiting : ib_rd s = RdWaiting -> ib_closed s = false;
-  ii_panic_closed : ib_h s = IHPanic -> ib_closed s = true /\ ib_remote_closed s = false
+  ii_notify : ib_h s = IHNotify -> ib_remote_closed s = false;
+  ii_panic : ib_h s = IHPanic -> ib_closed s = true /\ ib_remote_closed s = false
 }.
 
 Lemma IbbInv_init : IbbInv ibb_init.
@@ -136,7 +137,7 @@ Proof. constructor; cbn; discriminate. Qed.
 
 Lemma IbbInv_step s l s' : IbbInv s -> ibb_step s l = Some s' -> IbbInv s'.
 Proof.
-  intros [Ir Iw Ip] H. destruct l; cbn [ibb_step] in H.
+  intros [Ir Iw In Ip] H. destruct l; cbn [ibb_step] in H.
   - destruct (ib_rd s) eqn:Er; try discriminate. destruct cap; try discriminate.
     destruct (ib_h s) eqn:Eh; try discriminate.
     destruct (Nat.eqb (ib_buf s) 0); injection H as <-; constructor; cbn; auto; try discriminate;
@@ -148,15 +149,11 @@ Proof.
     destruct (Nat.eqb (ib_buf s) 0); injection H as <-; constructor; cbn; auto; try discriminate;
       rewrite ?Eh; discriminate.
   - destruct (ib_h s) eqn:Eh; try discriminate. destruct (ib_remote_closed s) eqn:Erc; try discriminate.
-    injection H as <-. constructor; cbn; auto; discriminate.
+    injection H as <-. constructor; cbn; rewrite ?Erc; auto; try discriminate.
   - destruct (ib_h s) eqn:Eh; try discriminate.
     destruct (ib_closed s) eqn:Ec.
-    + injection H as <-. constructor; cbn; auto. intros _. split; [exact Ec|].
-      destruct (ib_remote_closed s) eqn:Erc; [|reflexivity].
-      (* the handler does not touch a stream that was closed by the peer *)
-      exfalso. clear - Eh Erc Ip. exact (match Eh with eq_refl => I end) || idtac.
-      admit.
-    + destruct (ib_rd s) eqn:Er; injection H as <-; constructor; cbn; auto; discriminate.
+    + injection H as <-. constructor; cbn; rewrite ?Ec; auto; try discriminate.
+    + destruct (ib_rd s) eqn:Er; injection H as <-; constructor; cbn; rewrite ?Ec; auto; discriminate.
   - destruct (ib_h s) eqn:Eh; try discriminate. destruct (ib_closed s) eqn:Ec; try discriminate.
     injection H as <-. constructor; cbn; auto; try discriminate.
     destruct (ib_rd s); discriminate.
@@ -164,4 +161,221 @@ Proof.
     injection H as <-. constructor; cbn; auto.
     + destruct (ib_rd s); discriminate.
     + intros E. destruct (Ip E) as [A _]. discriminate.
-Admitted.
+Qed.
+
+Theorem IbbInv_run tr s : run ibb_step ibb_init tr = Some s -> IbbInv s.
+Proof.
+  apply (invariant_run _ _ ibb_step IbbInv ibb_init IbbInv_init).
+  intros s0 l s1 I H. exact (IbbInv_step s0 l s1 I H).
+Qed.
+
+(* a Read call never gets stuck on its own; the handler always completes *)
+Lemma ibb_local_progress s :
+  (ib_rd s = RdChecked -> ibb_enabled s IWait) /\
+  (ib_rd s = RdWoken -> ib_h s = IHIdle -> forall cap, ibb_enabled s (IWake (S cap))) /\
+  (ib_h s = IHNotify -> ibb_enabled s INotify).
+Proof.
+  unfold ibb_enabled. repeat split.
+  - intros E. cbn [ibb_step]. rewrite E. discriminate.
+  - intros E Eh cap. cbn [ibb_step]. rewrite E, Eh. destruct (Nat.eqb (ib_buf s) 0); discriminate.
+  - intros E. cbn [ibb_step]. rewrite E. destruct (ib_closed s); [discriminate|].
+    destruct (ib_rd s); discriminate.
+Qed.
+
+Ltac fin := repeat match goal with |- _ /\ _ => split end; intros;
+  try assumption; try reflexivity; try discriminate; try congruence; auto.
+
+(* ---- the handler's panic: only after a local Close ---- *)
+
+Definition no_local_close (s : ibbstate) : Prop :=
+  (ib_closed s = true -> ib_remote_closed s = true) /\
+  (ib_h s = IHNotify -> ib_remote_closed s = false) /\
+  ib_h s <> IHPanic.
+
+Lemma no_local_close_step s l s' :
+  no_local_close s -> l <> ICloseLocal -> ibb_step s l = Some s' -> no_local_close s'.
+Proof.
+  intros (A & B & C) N H. unfold no_local_close. destruct l; cbn [ibb_step] in H.
+  - destruct (ib_rd s); try discriminate. destruct cap; try discriminate.
+    destruct (ib_h s) eqn:Eh; try discriminate.
+    destruct (Nat.eqb (ib_buf s) 0); injection H as <-; cbn; rewrite ?Eh; fin.
+  - destruct (ib_rd s); try discriminate. injection H as <-. cbn. auto.
+  - destruct (ib_rd s); try discriminate. destruct cap; try discriminate.
+    destruct (ib_h s) eqn:Eh; try discriminate.
+    destruct (Nat.eqb (ib_buf s) 0); injection H as <-; cbn; rewrite ?Eh; fin.
+  - destruct (ib_h s) eqn:Eh; try discriminate. destruct (ib_remote_closed s) eqn:Erc; try discriminate.
+    injection H as <-. cbn. rewrite ?Erc. fin.
+  - destruct (ib_h s) eqn:Eh; try discriminate.
+    destruct (ib_closed s) eqn:Ec.
+    + rewrite (A eq_refl) in B. discriminate (B eq_refl).
+    + destruct (ib_rd s); injection H as <-; cbn; fin.
+  - destruct (ib_h s) eqn:Eh; try discriminate. destruct (ib_closed s) eqn:Ec; try discriminate.
+    injection H as <-. cbn. fin.
+  - congruence.
+Qed.
+
+Lemma no_panic_without_local_close tr : forall s s',
+  no_local_close s -> ~ In ICloseLocal tr -> run ibb_step s tr = Some s' -> ib_h s' <> IHPanic.
+Proof.
+  induction tr as [|l tr IH]; intros s s' P N R; cbn [run] in R.
+  - injection R as <-. apply P.
+  - destruct (ibb_step s l) as [s1|] eqn:E; [|discriminate].
+    apply (IH s1 s'); auto.
+    + eapply no_local_close_step; eauto. intros ->. apply N. left. reflexivity.
+    + intro X. apply N. right. exact X.
+Qed.
+
+Lemma ibb_no_panic_partial tr s :
+  ~ In ICloseLocal tr -> run ibb_step ibb_init tr = Some s -> ib_h s <> IHPanic.
+Proof.
+  apply no_panic_without_local_close. unfold no_local_close. cbn. repeat split; discriminate.
+Qed.
+
+Lemma ibb_panic_after_local_close :
+  exists s, run ibb_step ibb_init [ICloseLocal; IData 3; INotify] = Some s /\ ib_h s = IHPanic.
+Proof. eexists. split; [vm_compute; reflexivity|reflexivity]. Qed.
+
+(* ---- io.EOF on an open stream: only through an empty data packet ---- *)
+
+Definition eof_inv (s : ibbstate) : Prop :=
+  (In RdEOF (ib_outs s) -> ib_closed s = true) /\
+  (ib_rd s = RdWoken -> ib_closed s = true \/ 0 < ib_buf s) /\
+  (ib_h s = IHNotify -> 0 < ib_buf s).
+
+Definition nonempty_data (l : ibblabel) : Prop := match l with IData 0 => False | _ => True end.
+
+Ltac eof_snoc :=
+  match goal with
+  | X : In RdEOF (_ ++ [_]) |- _ => apply in_app_or in X; destruct X as [X|[X|[]]]; [auto|try discriminate]
+  end.
+
+Lemma eof_inv_step s l s' :
+  IbbInv s -> eof_inv s -> nonempty_data l -> ibb_step s l = Some s' -> eof_inv s'.
+Proof.
+  intros I (A & B & C) N H. unfold eof_inv. destruct l; cbn [ibb_step] in H.
+  - destruct (ib_rd s) eqn:Er; try discriminate. destruct cap; try discriminate.
+    destruct (ib_h s) eqn:Eh; try discriminate.
+    destruct (Nat.eqb (ib_buf s) 0) eqn:E0; injection H as <-; cbn [ibb_set ib_outs ib_closed ib_rd ib_h ib_buf];
+      rewrite ?Eh; fin.
+    eof_snoc.
+  - destruct (ib_rd s) eqn:Er; try discriminate. injection H as <-.
+    cbn [ibb_set ib_outs ib_closed ib_rd ib_h ib_buf]. fin.
+    destruct (ib_closed s); [auto|discriminate].
+  - destruct (ib_rd s) eqn:Er; try discriminate. destruct cap; try discriminate.
+    destruct (ib_h s) eqn:Eh; try discriminate.
+    destruct (Nat.eqb (ib_buf s) 0) eqn:E0; injection H as <-; cbn [ibb_set ib_outs ib_closed ib_rd ib_h ib_buf];
+      rewrite ?Eh; fin.
+    + eof_snoc. apply Nat.eqb_eq in E0. destruct (B eq_refl) as [Y|Y]; [exact Y|lia].
+    + eof_snoc.
+  - destruct (ib_h s) eqn:Eh; try discriminate. destruct (ib_remote_closed s) eqn:Erc; try discriminate.
+    injection H as <-. cbn [ibb_set ib_outs ib_closed ib_rd ib_h ib_buf]. fin.
+    + destruct (B H) as [Y|Y]; [left; exact Y|right; lia].
+    + destruct n; [destruct N|lia].
+  - destruct (ib_h s) eqn:Eh; try discriminate.
+    destruct (ib_closed s) eqn:Ec.
+    + injection H as <-. cbn [ibb_set ib_outs ib_closed ib_rd ib_h ib_buf]. rewrite ?Ec. fin.
+    + destruct (ib_rd s) eqn:Er; injection H as <-; cbn [ibb_set ib_outs ib_closed ib_rd ib_h ib_buf];
+        rewrite ?Ec, ?Er; fin.
+  - destruct (ib_h s) eqn:Eh; try discriminate. destruct (ib_closed s) eqn:Ec; try discriminate.
+    injection H as <-. cbn [ib_outs ib_closed ib_rd ib_h ib_buf]. fin.
+  - destruct (ib_closed s) eqn:Ec; try discriminate.
+    injection H as <-. cbn [ib_outs ib_closed ib_rd ib_h ib_buf]. fin.
+Qed.
+
+Lemma eof_only_when_closed_run tr : forall s s',
+  IbbInv s -> eof_inv s -> Forall nonempty_data tr -> run ibb_step s tr = Some s' -> eof_inv s'.
+Proof.
+  induction tr as [|l tr IH]; intros s s' I Q F R; cbn [run] in R.
+  - injection R as <-. exact Q.
+  - destruct (ibb_step s l) as [s1|] eqn:E; [|discriminate]. inversion F as [|? ? F1 F2]; subst.
+    apply (IH s1 s'); auto.
+    + eapply IbbInv_step; eauto.
+    + eapply eof_inv_step; eauto.
+Qed.
+
+Lemma ibb_eof_partial tr s :
+  Forall nonempty_data tr -> run ibb_step ibb_init tr = Some s ->
+  In RdEOF (ib_outs s) -> ib_closed s = true.
+Proof.
+  intros F R. apply (eof_only_when_closed_run tr ibb_init s IbbInv_init); auto.
+  unfold eof_inv. cbn. repeat split; try discriminate. intros [].
+Qed.
+
+Lemma ibb_eof_on_empty_packet :
+  exists s, run ibb_step ibb_init [IRead 4; IWait; IData 0; INotify; IWake 4] = Some s /\
+            ib_outs s = [RdEOF] /\ ib_closed s = false.
+Proof. eexists. split; [vm_compute; reflexivity|]. split; reflexivity. Qed.
+
+(* ---- the lost wake-up ---- *)
+
+(* the property: a reader is never left blocked while bytes are buffered and
+   the handler is outside its critical section *)
+Definition no_lost_wakeup (s : ibbstate) : Prop :=
+  ib_rd s = RdWaiting -> ib_h s = IHIdle -> ib_buf s = 0.
+
+Definition lost_wakeup_trace : list ibblabel := [IRead 4; IData 3; INotify; IWait].
+
+Lemma ibb_lost_wakeup :
+  exists s, run ibb_step ibb_init lost_wakeup_trace = Some s /\
+    ib_rd s = RdWaiting /\ ib_h s = IHIdle /\ ib_buf s = 3 /\ ib_closed s = false /\ ib_lost s = 1 /\
+    forall l, ibb_enabled s l -> (exists n, l = IData n) \/ l = ICloseRemote \/ l = ICloseLocal.
+Proof.
+  eexists. split; [vm_compute; reflexivity|]. repeat split.
+  intros l E. unfold ibb_enabled in E. destruct l; cbn in E; try congruence; eauto.
+Qed.
+
+(* the transition system without the window: no data packet is handled
+   between the reader's empty-buffer check and its wait *)
+Definition ibb_step_nw (s : ibbstate) (l : ibblabel) : option ibbstate :=
+  match l, ib_rd s with
+  | IData _, RdChecked => None
+  | _, _ => ibb_step s l
+  end.
+
+Definition nw_inv (s : ibbstate) : Prop :=
+  (ib_rd s = RdChecked -> ib_buf s = 0 /\ ib_h s = IHIdle) /\ no_lost_wakeup s.
+
+Lemma nw_inv_step s l s' : nw_inv s -> ibb_step_nw s l = Some s' -> nw_inv s'.
+Proof.
+  intros (A & B) H. unfold nw_inv, no_lost_wakeup in *. unfold ibb_step_nw in H.
+  destruct l; cbn [ibb_step] in H.
+  - destruct (ib_rd s) eqn:Er; try discriminate. destruct cap; try discriminate.
+    destruct (ib_h s) eqn:Eh; try discriminate.
+    destruct (Nat.eqb (ib_buf s) 0) eqn:E0; injection H as <-; cbn; rewrite ?Eh; fin.
+  - destruct (ib_rd s) eqn:Er; try discriminate. injection H as <-. cbn.
+    destruct (A eq_refl) as [A1 A2]. split; [destruct (ib_closed s); discriminate|auto].
+  - destruct (ib_rd s) eqn:Er; try discriminate. destruct cap; try discriminate.
+    destruct (ib_h s) eqn:Eh; try discriminate.
+    destruct (Nat.eqb (ib_buf s) 0) eqn:E0; injection H as <-; cbn; rewrite ?Eh; fin.
+  - destruct (ib_rd s) eqn:Er; try discriminate;
+      (destruct (ib_h s) eqn:Eh; try discriminate; destruct (ib_remote_closed s); try discriminate;
+       injection H as <-; cbn; rewrite ?Er; split; intros; discriminate).
+  - destruct (ib_h s) eqn:Eh; try discriminate.
+    destruct (ib_closed s) eqn:Ec.
+    + injection H as <-. cbn. split; [intro X; destruct (A X); discriminate|intros; discriminate].
+    + destruct (ib_rd s) eqn:Er; injection H as <-; cbn; rewrite ?Er; split; intros; try discriminate.
+      destruct (A eq_refl). discriminate.
+  - destruct (ib_h s) eqn:Eh; try discriminate. destruct (ib_closed s) eqn:Ec; try discriminate.
+    injection H as <-. cbn. split.
+    + intro X. destruct (ib_rd s) eqn:Er; try discriminate. auto.
+    + intro X. destruct (ib_rd s); discriminate.
+  - destruct (ib_closed s) eqn:Ec; try discriminate.
+    injection H as <-. cbn. split.
+    + intro X. destruct (ib_rd s) eqn:Er; try discriminate. auto.
+    + intro X. destruct (ib_rd s); discriminate.
+Qed.
+
+Lemma ibb_no_lost_wakeup_partial tr s :
+  run ibb_step_nw ibb_init tr = Some s -> no_lost_wakeup s.
+Proof.
+  intro R. apply (invariant_run _ _ ibb_step_nw nw_inv ibb_init) with (tr := tr) (s := s).
+  - unfold nw_inv, no_lost_wakeup. cbn. split; intros; discriminate.
+  - exact nw_inv_step.
+  - exact R.
+Qed.
+
+(* the restricted system is a sub-system of the full one *)
+Lemma ibb_step_nw_sub s l s' : ibb_step_nw s l = Some s' -> ibb_step s l = Some s'.
+Proof.
+  unfold ibb_step_nw. destruct l; auto. destruct (ib_rd s); auto. discriminate.
+Qed.
